@@ -20,8 +20,17 @@ if a tree does not compile that way the driver is rebuilt with plain overload re
 build are dropped one by one and listed.  Trace_Layout17 accepts
 an event iff the designated cells are the ones Addr gives, every lane equals Expected modulo p (copies: the same word), the
 changed cells are exactly the write footprint, the second run agrees and nothing else was written; a crash is never accepted.
+Designation families (Layout.tla DesLevels / DesFamilies), every binary overload: operands a and b given by the SAME base pointer
+(rows with two array operands) with identical strides / index lists (op(x, x)), index lists that agree in the first / second
+half of the lanes and differ in the other, that differ in exactly one lane (every lane), that are permutations of each other,
+unrelated ones, one index-list object for both; the same with the result in place (one array, one address map for a, b and the
+result, where the row allows ca / cb); and, for every binary row (registers and broadcasts included), the operand WORDS related in
+these ways.  Trace_Layout17 checks that the designations recorded are in the family the event claims and judges the lanes on the
+designated operands as always.
 parcpy / parSetZero: sizes 0..64 (thorough: ..200 and larger) x thread arguments {-5,0,1,2,3,7,64,1000}: exactly the cells the
-chunk model covers change, to the source words / zero."""
+chunk model covers change, to the source words / zero; and in the OpenMP delivery environments of vh::with_env (0 plain, 1 call
+from inside an active parallel region, 2 / 3 process-wide thread-count setting 1 / 5): sizes {0,1,2,3,5,8,13,64,1000} (thorough:
+0..40 and larger) x thread arguments {-5,0,1,2,3,4,7,64} - the judged result is the same in every environment."""
 import os, json, shutil, hashlib, time
 from concurrent.futures import ThreadPoolExecutor
 import vlib
@@ -30,11 +39,14 @@ import gen_layout17 as G
 
 LEVEL_NOTE = ('TLC decides the layout algebra and the chunk arithmetic at small bounds; the table itself is a reviewed reading of the '
               'declarations (it is the specification, not derived from the bodies); conformance binds only the executed calls '
-              '(>= 40 / 400 per overload, + 12 / 100 per allowed alias mode); partial overlaps with different address maps are outside the property.')
+              '(>= 40 / 400 per overload, + 12 / 100 per allowed alias mode, + the designation families of every binary overload; bulk copies in the 4 delivery environments of vh::with_env - thread limits and dynamic adjustment are not among them); partial overlaps with different address maps are outside the property.')
 P = vlib.P
 S_IN = [0, 1, 3, 517, 2, 5, 64]
 S_OUT = [1, 3, 517, 2, 5, 1, 64, 0, 3]
 THREADS = [-5, 0, 1, 2, 3, 7, 64, 1000]
+ENV_THREADS = [-5, 0, 1, 2, 3, 4, 7, 64]
+ENV_SIZES = [0, 1, 2, 3, 5, 8, 13, 64, 1000]
+MEM = ('contig', 'stride', 'index')
 
 
 def gen_cases(table, variant, tier, seed, ci0):
@@ -66,6 +78,51 @@ def gen_cases(table, variant, tier, seed, ci0):
     return out
 
 
+def gen_des(table, variant, tier, seed, ci0):
+    """designation families of the binary rows of this build variant -> list of (ci, line)"""
+    rng = vlib.Rng(seed ^ 0xDE5C17 ^ (0x512 if variant == 'avx512' else 0))
+    quick = tier == 'quick'
+    out = []; ci = ci0
+    STR = [1, 3, 2, 5, 517, 64, 0, 4099]
+
+    def emit(r, j, alias, level, fam, dl, ixo, inj=False):
+        nonlocal ci
+        sa = STR[j % 8]; sb = STR[(3 * j + 1) % 8]; sc = [1, 3, 517, 2, 5, 64][(5 * j + 2) % 6]
+        if inj:
+            sa = sa or 1; sb = sb or 7
+        ima = [0, 1, 3, 5, 2, 4][j % 6]; imb = [1, 3, 0, 2, 5, 4][(j // 2) % 6]
+        ci += 1
+        out.append((ci, '%d C %s 0x%x %d %d %d %d %d %d %d %d %s %d %s %s %d %d' % (ci, r['id'], rng.next(), sa, sb, sc, ima, imb, (j + 3) % 6, (3 * j + 1) % 8, j % 5,
+                                                                                alias, j % r['L'], level, fam, dl % r['L'], 1 if ixo else 0)))
+    for r in table:
+        if r['variant'] != variant or not r['defined'] or r['op'] == 'copy':
+            continue
+        L = r['L']; ka = r['a']['kind']; kb = r['b']['kind']
+        j = 0
+        if ka in MEM and kb in MEM:
+            # same base pointer
+            if 'index' in (ka, kb):
+                fams = [('eq', 0, False), ('h1', 0, False), ('h2', 0, False), ('perm', 0, False), ('any', 0, False)] + [('one', k, False) for k in range(L)]
+                if ka == kb:
+                    fams.append(('eq', 0, True))
+            else:
+                fams = [('eq', 0, False)] + ([('any', 0, False)] if 'stride' in (ka, kb) else [])
+            for rep_ in range(2 if quick else 16):
+                for fam, dl, ixo in fams:
+                    emit(r, j, 'none', 'base', fam, dl, ixo); j += 1
+            for m in G.alias_modes(r):
+                if m in ('ca', 'cb') and r['c']['kind'] in MEM:
+                    for rep_ in range(3 if quick else 24):
+                        emit(r, j, m, 'base', 'eq', 0, False); j += 1
+        # the operand words related (separate storage; registers, broadcasts)
+        scal = 'scalar' in (ka, kb)
+        fams = [('eq', 0), ('h1', 0), ('h2', 0)] + ([] if scal else [('perm', 0)]) + [('one', k) for k in range(L)]
+        for rep_ in range(1 if quick else 8):
+            for fam, dl in fams:
+                emit(r, j, 'none', 'word', fam, dl, False, inj=True); j += 1
+    return out
+
+
 def gen_par(tier, seed, ci0):
     rng = vlib.Rng(seed ^ 0xC17BA5)
     sizes = list(range(0, 65)) if tier == 'quick' else list(range(0, 201)) + [255, 256, 257, 511, 1000, 1023, 1024, 1025, 4097]
@@ -74,7 +131,15 @@ def gen_par(tier, seed, ci0):
         for s in sizes:
             for ti, t in enumerate(THREADS):
                 ci += 1
-                out.append((ci, '%d P %s %d %d %d 0x%x' % (ci, fn, s, t, [0, 3][(s + ti) % 2], rng.next())))
+                out.append((ci, '%d P %s %d %d %d 0x%x 0' % (ci, fn, s, t, [0, 3][(s + ti) % 2], rng.next())))
+    # OpenMP delivery environments: the same calls from inside a parallel region / under a foreign thread-count setting
+    esizes = ENV_SIZES if tier == 'quick' else list(range(0, 41)) + [64, 65, 127, 200, 255, 1000, 1024, 4097]
+    for fn in ('parcpy', 'parSetZero'):
+        for s in esizes:
+            for ti, t in enumerate(ENV_THREADS + ([] if tier == 'quick' else [16, 1000])):
+                for env in (0, 1, 2, 3):
+                    ci += 1
+                    out.append((ci, '%d P %s %d %d %d 0x%x %d' % (ci, fn, s, t, [0, 3][(s + ti + env) % 2], rng.next(), env)))
     return out
 
 
@@ -86,8 +151,14 @@ def explain(rec, rows):
         if rec.get('e') == 'par':
             n = rec['size']
             bad = [i for i in range(len(rec['d1'])) if (i < n and rec['d1'][i] != (rec['src'][i] if rec['fn'] == 'parcpy' else [0] * 8)) or (i >= n and rec['d1'][i] != rec['d0'][i])]
-            return 'size=%d threads=%d: wrong cells after the call: %s' % (n, rec['nt'], bad[:10])
+            return 'size=%d threads=%d delivery environment %d (%s): %d wrong cells after the call: %s' % (
+                n, rec['nt'], rec.get('env', 0), ['plain call', 'call from inside an active parallel region', 'process-wide thread setting 1', 'process-wide thread setting 5'][rec.get('env', 0) % 4],
+                len(bad), bad[:10])
         r = rows[rec['id']]; L = r['L']; why = []
+        if rec.get('dlv', 'none') != 'none':
+            why.append({'base': 'operands a and b given by the same base pointer', 'word': 'operand words related'}[rec['dlv']] +
+                       ', family %s%s%s' % (rec['des'], ' lane %d' % rec['dl'] if rec['des'] == 'one' else '', ', one index-list object' if rec.get('ixo') else '') +
+                       (' (cells a %s, cells b %s)' % (rec['aa'], rec['ab']) if rec['dlv'] == 'base' else ''))
         a = [vlib.unw64(x) for x in rec['a']]; b = [vlib.unw64(x) for x in rec['b']] or [0] * L; res = [vlib.unw64(x) for x in rec['r']]
         f = dict(copy=lambda x, y: x, add=lambda x, y: (x + y) % P, sub=lambda x, y: (x - y) % P, mul=lambda x, y: (x * y) % P)[r['op']]
         for k in range(L):
@@ -209,6 +280,7 @@ def run(tier, seed, replay=None):
         ci = 0
         for v in variants:
             per[v] = gen_cases(table_run, v, tier, seed, ci); ci = per[v][-1][0]
+            per[v] += gen_des(table_run, v, tier, seed, ci); ci = per[v][-1][0]
         per['avx2'] += gen_par(tier, seed, ci)
     byci = {}
     traces = []
@@ -252,14 +324,24 @@ def run(tier, seed, replay=None):
         else:
             ck.note('rejected record of %s not reproduced on re-run (case %s)' % (cls, line))
     # ---- coverage
-    cnt = {}; acnt = {}
+    cnt = {}; acnt = {}; dcnt = {}; drows = {}; ecnt = {}
     for ln in open(tpath):
         if ln.startswith('{"e":"call"') or ln.startswith('{"e":"crash"'):
             j = json.loads(ln)
             i = j.get('id'); cnt[i] = cnt.get(i, 0) + 1
             if j.get('alias', 'none') != 'none':
                 acnt[j['alias']] = acnt.get(j['alias'], 0) + 1
+            if j.get('dlv', 'none') != 'none':
+                k = '%s.%s%s%s' % (j['dlv'], j['des'], '.inplace' if j['alias'] != 'none' else '', '.one_list_object' if j.get('ixo') else '')
+                dcnt[k] = dcnt.get(k, 0) + 1
+                drows.setdefault(j['dlv'], set()).add(i)
+        elif ln.startswith('{"e":"par"'):
+            j = json.loads(ln)
+            ecnt[str(j.get('env', 0))] = ecnt.get(str(j.get('env', 0)), 0) + 1
     ck.cov['alias_mode_calls'] = acnt
+    ck.cov['designation_family_calls'] = dcnt
+    ck.cov['designation_family_rows'] = {k: len(v) for k, v in drows.items()}
+    ck.cov['bulk_copy_calls_per_delivery_environment'] = ecnt
     ck.cov['alias_mode_rows'] = {m: len([r for r in table if m in G.alias_modes(r) and cnt.get(r['id'])]) for m in ('sc', 'sa', 'ca', 'cb')}
     fam = {}
     for r in table:
